@@ -40,7 +40,13 @@ var docFields = map[string]defMap{
 		// ... and nine more: a selection for t2 can name more than sixteen
 		"d1": {Kind: "attr", K: "string"}, "d2": {Kind: "attr", K: "int"}, "d3": {Kind: "attr", K: "string"},
 		"d4": {Kind: "attr", K: "string"}, "d5": {Kind: "attr", K: "int", Null: true}, "d6": {Kind: "attr", K: "string"},
-		"d7": {Kind: "attr", K: "string"}, "d8": {Kind: "attr", K: "string"}, "d9": {Kind: "attr", K: "string"}},
+		"d7": {Kind: "attr", K: "string"}, "d8": {Kind: "attr", K: "string"}, "d9": {Kind: "attr", K: "string"},
+		// ... a name that differs from another one by its case only, and fourteen more: thirty-five fields in all
+		"C1": {Kind: "attr", K: "string"},
+		"e01": {Kind: "attr", K: "string"}, "e02": {Kind: "attr", K: "string"}, "e03": {Kind: "attr", K: "int"}, "e04": {Kind: "attr", K: "string"},
+		"e05": {Kind: "attr", K: "string"}, "e06": {Kind: "attr", K: "string", Null: true}, "e07": {Kind: "attr", K: "string"}, "e08": {Kind: "attr", K: "string"},
+		"e09": {Kind: "attr", K: "string"}, "e10": {Kind: "attr", K: "string"}, "e11": {Kind: "attr", K: "int", Null: true}, "e12": {Kind: "attr", K: "string"},
+		"e13": {Kind: "attr", K: "string"}, "e14": {Kind: "attr", K: "string"}},
 }
 
 type dRes struct {
@@ -1223,6 +1229,13 @@ func randDoc(rng *rand.Rand) dDoc {
 			rng.Shuffle(len(big), func(i, j int) { big[i], big[j] = big[j], big[i] })
 			for _, id := range big[:9+rng.Intn(4)] {
 				d.Primary = append(d.Primary, randDocRes(rng, "t1", id))
+			}
+		}
+		if d.Kind == "many" && rng.Intn(40) == 0 {
+			// a long collection, of a length that no even split divides (work cut in equal parts loses the rest)
+			d.Primary = nil
+			for k, n := 0, []int{65, 66, 67, 70, 131}[rng.Intn(5)]; k < n; k++ {
+				d.Primary = append(d.Primary, randDocRes(rng, "t1", fmt.Sprintf("q%03d", (k*37)%n)))
 			}
 		}
 		if d.Kind == "many" && d.Coll == "resources" && len(d.Primary) >= 2 && rng.Intn(5) == 0 {
